@@ -1,5 +1,6 @@
 import DarkluaModel.Shared.AstSexp
 import DarkluaModel.C07.Model
+import DarkluaModel.C07.Cover
 /-!
 Line-protocol handlers for properties C06 and C07 (the Luau-lowering rules).
 
@@ -10,6 +11,7 @@ Line-protocol handlers for properties C06 and C07 (the Luau-lowering rules).
 * `c06.all <block> [(<expr>*)]` → all nine rules in the order of `C07.lowerAll`
 * `c06.census <name> <block>` → the feature census (`<name>` = a rule name, or `luau` for all)
 * `c06.wf <block>` → `true`/`false`: the tree is one darklua's AST can express
+* `c06.fuelok <block>` → `true`/`false`: the fuel hypothesis `ifFuelOk` of `census_zero_remove_if_expression`
 * `c06.hyp <rule-name x-hex> <block>` → `true`/`false`: the hypothesis of that rule's partial theorems
 -/
 namespace DarkluaModel.C06
@@ -134,6 +136,11 @@ def handle (op : String) (args : List String) : String :=
   | "wf", some [block] =>
     match Block.ofSexp? block with
     | some b => toString (wfB b)
+    | none => "bad-request"
+  | "fuelok", some [block] =>
+    -- the decidable fuel hypothesis of `census_zero_remove_if_expression`
+    match Block.ofSexp? block with
+    | some b => toString (decide (C07.kB { ifx := 13 } b + 1 ≤ Visitor.fuelFor b))
     | none => "bad-request"
   | "hyp", some [name, block] =>
     match nameOfSexp? name, Block.ofSexp? block with
